@@ -106,6 +106,13 @@ func mergeTypes(a, b map[string]*ast.Definition, as, bs *ast.Schema) (map[string
 
 		// skip node
 		if nvb.Name == common.NodeInterfaceName {
+			// every schema has to declare it the same way: what a type owes to the interface
+			// (and whether the merged schema loads at all) would otherwise depend on which
+			// schema is listed first
+			v1, v2 := lo.Difference(fieldSignatures(va.Fields), fieldSignatures(nvb.Fields))
+			if len(v1) != 0 || len(v2) != 0 {
+				return nil, fmt.Errorf("node interface collision: %s(%s) conflicting fields %v(%v)", va.Name, va.Kind, v1, v2)
+			}
 			continue
 		}
 
@@ -311,6 +318,22 @@ func mergeCustomObjectFields(aTypes, bTypes map[string]*ast.Definition, a, b *as
 	}
 
 	return result, nil
+}
+
+// fieldSignatures prints every field which can be merged with its arguments and its type
+func fieldSignatures(fields ast.FieldList) []string {
+	var result []string
+	for _, f := range fields {
+		if common.IsBuiltinName(f.Name) {
+			continue
+		}
+		var args []string
+		for _, arg := range f.Arguments {
+			args = append(args, arg.Name+": "+arg.Type.String())
+		}
+		result = append(result, fmt.Sprintf("%s(%s): %s", f.Name, strings.Join(args, ", "), f.Type.String()))
+	}
+	return result
 }
 
 func mergeableFields(t *ast.Definition) ast.FieldList {
